@@ -1089,7 +1089,9 @@ ecdsa_key_gen(ec_curve_p curve, bn_p d, ec_point_p Q) {
 	/*  d = (c mod (n − 1)) + 1 */
 	BN_RET_ON_ERR(bn_mod_reduce(d, &curve->n, &curve->n_mod_rd_data));
 	/* Q = dG */
-	ec_point_mult_bp(d, curve, Q);
+	BN_RET_ON_ERR(ec_point_mult_bp(d, curve, Q));
+	if (0 != ec_point_is_at_infinity(Q)) /* d = 0 is not a private key. */
+		return (-1);
 	BN_RET_ON_ERR(ec_point_check_as_pub_key(Q, curve));
 	return (0);
 }
